@@ -129,6 +129,8 @@ class OggFLACVComment(VCommentDict):
 
         # Set the new comment block.
         data = self.write(framing=False)
+        if len(data) > 0xFFFFFF:
+            raise error("comment block is too long to write")
         data = packets[0][:1] + struct.pack(">I", len(data))[-3:] + data
         packets[0] = data
 
